@@ -16,10 +16,19 @@ type lineLimitReader struct {
 	LineLimit int
 
 	curLineLength int
-	tripped       bool // ErrTooLongLine has been returned
+	tripped       bool  // ErrTooLongLine has been returned
+	err           error // the underlying Reader has failed: the stream is over
 }
 
 func (r *lineLimitReader) Read(b []byte) (int, error) {
+	if r.err != nil {
+		// An error of the connection (a timeout in particular) is final: if
+		// reading were resumed after it, for instance when it happened in the
+		// middle of a message, what is read next would not be where the
+		// protocol expects it.
+		return 0, r.err
+	}
+
 	if r.curLineLength > r.LineLimit && r.LineLimit > 0 {
 		r.tripped = true
 		return 0, ErrTooLongLine
@@ -27,6 +36,7 @@ func (r *lineLimitReader) Read(b []byte) (int, error) {
 
 	n, err := r.R.Read(b)
 	if err != nil {
+		r.err = err
 		return n, err
 	}
 
